@@ -11,6 +11,26 @@ theorem sumTo_eq (n : Nat) (f : Nat → Rat) : sumTo n f = ∑ i ∈ range n, f 
     rw [Finset.sum_range_succ, ← ih]
     simp [sumTo, List.range_succ]
 
+/-! the LIFTED `_eval` expressions (`EGGen.lagrOf`, `lagrTerm`, `violOf`, `violAgg`) in the closed form every proof below
+    uses; an edit of `L = error + np.sum(lambda_vec * (gamma - bound))` or of `(gamma - bound).max()` in the source
+    changes the generated text and breaks these three lemmas (hence every C08 theorem about `lagr`, `viol`, `lHigh`) -/
+
+theorem viol_def (T : Table) (Q : Nat → Rat) (j : Nat) : viol T Q j = gamQ T Q j - T.c j := by
+  unfold viol EGGen.violOf; ring
+
+theorem lagr_def (T : Table) (Q lam : Nat → Rat) :
+    lagr T Q lam = errQ T Q + sumTo T.nC (fun j => lam j * viol T Q j) := by
+  unfold lagr EGGen.lagrOf EGGen.lagrTerm viol EGGen.violOf
+  rfl
+
+theorem violAgg_eq (a b : Rat) : EGGen.violAgg a b = EGGen.max2 a b := by
+  unfold EGGen.violAgg; rfl
+
+theorem maxViol_def (T : Table) (Q : Nat → Rat) :
+    maxViol T Q = (List.range T.nC).foldl (fun acc j => EGGen.max2 acc (viol T Q j)) (viol T Q 0) := by
+  unfold maxViol EGGen.violAgg
+  rfl
+
 theorem errQ_unit (T : Table) (i : Nat) (hi : i < T.nH) : errQ T (unit i) = T.err i := by
   rw [errQ, sumTo_eq]
   simp only [unit, ite_mul, one_mul, zero_mul]
@@ -25,11 +45,11 @@ theorem gamQ_unit (T : Table) (i j : Nat) (hi : i < T.nH) : gamQ T (unit i) j = 
 
 theorem lPure_eq (T : Table) (lam : Nat → Rat) (i : Nat) (hi : i < T.nH) :
     lPure T lam i = T.err i + ∑ j ∈ range T.nC, lam j * (T.gam j i - T.c j) := by
-  rw [lPure, lagr, errQ_unit T i hi, sumTo_eq]
+  rw [lPure, lagr_def, errQ_unit T i hi, sumTo_eq]
   congr 1
   apply Finset.sum_congr rfl
   intro j _
-  rw [viol, gamQ_unit T i j hi]
+  rw [viol_def, gamQ_unit T i j hi]
 
 /-- The Lagrangian is affine in `Q`: for weights summing to one it is the mixture of the pure values. -/
 theorem lagr_mix (T : Table) (Q lam : Nat → Rat) (hQ : ∑ i ∈ range T.nH, Q i = 1) :
@@ -42,11 +62,11 @@ theorem lagr_mix (T : Table) (Q lam : Nat → Rat) (hQ : ∑ i ∈ range T.nH, Q
     apply Finset.sum_congr rfl
     intro j _; ring
   rw [Finset.sum_congr rfl h1, Finset.sum_add_distrib, Finset.sum_comm]
-  rw [lagr, errQ, sumTo_eq, sumTo_eq]
+  rw [lagr_def, errQ, sumTo_eq, sumTo_eq]
   congr 1
   apply Finset.sum_congr rfl
   intro j _
-  rw [← Finset.mul_sum, Finset.sum_sub_distrib, ← Finset.sum_mul, hQ, one_mul, viol, gamQ, sumTo_eq]
+  rw [← Finset.mul_sum, Finset.sum_sub_distrib, ← Finset.sum_mul, hQ, one_mul, viol_def, gamQ, sumTo_eq]
 
 /-! ### L_low : a running minimum -/
 
@@ -134,7 +154,8 @@ theorem foldMax_ge_mem (f : Nat → Rat) : ∀ (l : List Nat) (init : Rat), ∀ 
     · exact foldMax_ge_mem f l _ j hj
 
 theorem viol_le_maxViol (T : Table) (Q : Nat → Rat) (j : Nat) (hj : j < T.nC) :
-    viol T Q j ≤ maxViol T Q := foldMax_ge_mem _ _ _ j (List.mem_range.mpr hj)
+    viol T Q j ≤ maxViol T Q := by
+  rw [maxViol_def]; exact foldMax_ge_mem _ _ _ j (List.mem_range.mpr hj)
 
 /-- `L_high` dominates the error and `error + B * violation_j` for every constraint (`B ≥ 0`). -/
 theorem lHigh_ge (T : Table) (B : Rat) (hB : 0 ≤ B) (Q : Nat → Rat) :
@@ -158,7 +179,7 @@ theorem lagr_le_lHigh (T : Table) (B : Rat) (Q lam : Nat → Rat)
     (hl : ∀ j < T.nC, 0 ≤ lam j) (hB : ∑ j ∈ range T.nC, lam j ≤ B) :
     lagr T Q lam ≤ lHigh T B Q := by
   have hB0 : 0 ≤ B := le_trans (Finset.sum_nonneg (fun j hj => hl j (Finset.mem_range.mp hj))) hB
-  rw [lagr, sumTo_eq]
+  rw [lagr_def, sumTo_eq]
   set M := maxViol T Q with hM
   have hterm : ∑ j ∈ range T.nC, lam j * viol T Q j ≤ ∑ j ∈ range T.nC, lam j * (if 0 < M then M else 0) := by
     apply Finset.sum_le_sum
@@ -196,16 +217,29 @@ theorem posPart_sub (a b : Rat) : posPart (a - b) - posPart (b - a) = a - b := b
 theorem posPart_add_le (a b : Rat) (ha : 0 ≤ a) (hb : 0 ≤ b) : posPart (a - b) + posPart (b - a) ≤ a + b := by
   unfold posPart; split <;> split <;> linarith
 
+/-- the lifted `+` entry of `project_lambda` is the positive part of the pair's difference … -/
+theorem src_posOf (a b : Rat) : ProjectLambdaSrc.posOf a b = posPart (a - b) := by
+  unfold ProjectLambdaSrc.posOf posPart
+  split_ifs <;> linarith
+
+/-- … and the lifted `-` entry is the positive part of the opposite difference (this is where the data flow of the
+    source — `lambda_neg` negates the UNCLIPPED `lambda_pos` — and its signs enter the C08 proofs) -/
+theorem src_negOf (a b : Rat) : ProjectLambdaSrc.negOf a b = posPart (b - a) := by
+  unfold ProjectLambdaSrc.negOf posPart
+  split_ifs <;> linarith
+
 theorem project_nonneg (m : Nat) (lam : Nat → Rat) (j : Nat) : 0 ≤ project m lam j := by
-  unfold project; split <;> exact posPart_nonneg _
+  unfold project; split
+  · rw [src_posOf]; exact posPart_nonneg _
+  · rw [src_negOf]; exact posPart_nonneg _
 
 theorem project_lo (m : Nat) (lam : Nat → Rat) (j : Nat) (hj : j < m) :
-    project m lam j = posPart (lam j - lam (j + m)) := by simp [project, hj]
+    project m lam j = posPart (lam j - lam (j + m)) := by simp [project, hj, src_posOf]
 
 theorem project_hi (m : Nat) (lam : Nat → Rat) (j : Nat) :
     project m lam (m + j) = posPart (lam (m + j) - lam j) := by
   have : ¬ (m + j < m) := by omega
-  simp [project, this]
+  simp [project, this, src_negOf]
 
 /-- `project_lambda` does not change `λ·γ` when the `-` entries of `γ` are the negated `+` entries
     (true for every UtilityParity moment with ratio 1), so a best response to `λ` is a best response to
